@@ -75,6 +75,28 @@ def pys_exec(src, env, name="test"):
     return g
 
 
+def pys_exec2(src_def, src_run, env, name="test"):
+    """two-phase execution: definitions (static analysis of function bodies - nothing symbolic) untraced, then the run part traced"""
+    g = {**env}
+    with notrace():
+        gctx = GlobalContext(name, global_sym_table=g, manager=GlobalContextMgr)
+        a = AstEval(name, global_ctx=gctx)
+        a.parse(src_def)
+        run(a.eval())
+    a.parse(src_run)
+    run(a.eval())
+    return g
+
+
+def cpy_exec2(src_def, src_run, env, name="test"):
+    g = {**env}
+    with notrace():
+        exec(compile(src_def, name, "exec"), g)
+    exec(compile(src_run, name, "exec"), g)
+    g.pop("__builtins__", None)
+    return g
+
+
 def cpy_exec(src, env, name="test"):
     g = {**env}
     exec(compile(src, name, "exec"), g)
